@@ -23,6 +23,7 @@ All oracles: gtmon.ref.fsa_model + gtmon.ref.fsa_lang (numpy only).
 """
 import collections
 import copy
+import os
 import traceback
 
 from ..run import Workload
@@ -152,6 +153,17 @@ def setup(run):
 
     # -- queries ----------------------------------------------------------
     def pre_query(call):
+        return fl.snapshot(call.args[0])
+
+    def pre_enum(call):
+        # enumerations made by automaton_multiple itself: the automaton is the
+        # one snapshotted when the operation started; judged within a budget
+        if _ctx.get("op_depth", 0) > 0:
+            if _ctx.get("enum_budget", 0) <= 0:
+                return "over-budget", None
+            held = _ctx.get("op_model")
+            if held is not None and held[0] is call.args[0]:
+                return held[1], None
         return fl.snapshot(call.args[0])
 
     def label_watch(call, M, op):
@@ -313,15 +325,15 @@ def setup(run):
             M, prob = state
             if call.exc is not None:
                 return
+            if M == "over-budget":
+                return enum.skip("internal enumeration beyond the per-operation budget")
             if M is None:
                 return enum.skip("label view not an automaton before the call")
             b = args_of(call, op)
             length = b.get("length", b.get("max_length"))
             s = b.get("start_vertex")
             if _ctx.get("op_depth", 0) > 0:
-                if _ctx.get("enum_budget", 0) <= 0:
-                    return enum.skip("internal enumeration beyond the per-operation budget")
-                _ctx["enum_budget"] -= 1
+                _ctx["enum_budget"] = _ctx.get("enum_budget", 0) - 1
             if not isinstance(length, int) or length < 0:
                 return enum.skip("negative or non-integer length")
             if s is None and len(M.starts) != 1:
@@ -352,8 +364,8 @@ def setup(run):
         return hook
 
     attach.wrap_attr(run, FSA, "enumerate_fixed_length_paths",
-                     hook_enum("enumerate_fixed_length_paths"), pre=pre_query)
-    attach.wrap_attr(run, FSA, "enumerate_words", hook_enum("enumerate_words"), pre=pre_query)
+                     hook_enum("enumerate_fixed_length_paths"), pre=pre_enum)
+    attach.wrap_attr(run, FSA, "enumerate_words", hook_enum("enumerate_words"), pre=pre_enum)
 
     # -- operations ----------------------------------------------------------
     def pre_op(call):
@@ -364,10 +376,12 @@ def setup(run):
     def pre_multiple(call):
         # the operation enumerates k-paths from every vertex it visits (often
         # many times): only the first few of these internal enumerations are judged
+        st = pre_op(call)
         _ctx["op_depth"] = _ctx.get("op_depth", 0) + 1
         if _ctx["op_depth"] == 1:
             _ctx["enum_budget"] = 8
-        return pre_op(call)
+            _ctx["op_model"] = (call.args[0], st[0]) if st[0] is not None else None
+        return st
 
     def self_watch(call, flat, op):
         d = fl.views_diff(flat, fl.flat_views(call.args[0]))
@@ -415,6 +429,8 @@ def setup(run):
     def hook_multiple(opname):
         def hook(call, state):
             _ctx["op_depth"] = max(0, _ctx.get("op_depth", 1) - 1)
+            if _ctx["op_depth"] == 0:
+                _ctx["op_model"] = None
             if state is None:
                 return
             M, prob, flat = state
@@ -800,6 +816,8 @@ def operations(run, rng, F, M, labels, ks=(1, 2, 3, 4), roots="all", depth=0,
                     if k == 2:
                         operations(run, rng, G, MG, blocks, ks=(1, 2), roots=2, depth=1,
                                    renames=1)
+            except Stop:
+                v0 = nviol(run)
             finally:
                 _ctx["route"] = base
             poke(run, rng, "automaton_multiple", F, G, labels)
@@ -837,6 +855,8 @@ def operations(run, rng, F, M, labels, ks=(1, 2, 3, 4), roots="all", depth=0,
                     queries(run, rng, G, MG, newlabs, 3, sample=120)
                     queries(run, rng, C, MG, newlabs, 2, sample=60)
                 enumerations(run, rng, G, MG, 3, starts=1)
+            except Stop:
+                v0 = nviol(run)
             finally:
                 _ctx["route"] = base
         poke(run, rng, "rename_generators", F, G, labels)
@@ -862,6 +882,8 @@ def operations(run, rng, F, M, labels, ks=(1, 2, 3, 4), roots="all", depth=0,
                 if labs and len(set(map(len, labs))) == 1:
                     queries(run, rng, G, MR, labs, 3, sample=100)
                 enumerations(run, rng, C, MR, 3, starts=1)
+            except Stop:
+                v0 = nviol(run)
             finally:
                 _ctx["route"] = base
     poke(run, rng, "recurrent", F, G1, labels)
@@ -892,6 +914,8 @@ def operations(run, rng, F, M, labels, ks=(1, 2, 3, 4), roots="all", depth=0,
                 enumerations(run, rng, H, MH, 3, explicit_start=s)
                 lib(run, "shortest-paths", "remove_long_paths", lambda: H.remove_long_paths(root=s))
                 check(run, v0)
+            except Stop:
+                v0 = nviol(run)
             finally:
                 _ctx["route"] = base
             poke(run, rng, "remove_long_paths", F, H, labels)
@@ -911,7 +935,9 @@ def verify_build(run, F, M):
 
 
 def exercise(run, rng, d, start, labels, rt, Lw=4, Le=4, ks=(1, 2, 3, 4), roots="all",
-             sample=None, all_starts=True, F=None):
+             sample=None, all_starts=True, F=None, derived=True):
+    """one automaton through everything.  derived=False: the operations are
+    judged, but their results are not queried in turn."""
     M = Model.from_label_dict(d, [start])
     _ctx["route"] = rt
     case = {"route": rt, "label_dict": {repr(v): {l: repr(w) for l, w in nb.items()}
@@ -928,7 +954,8 @@ def exercise(run, rng, d, start, labels, rt, Lw=4, Le=4, ks=(1, 2, 3, 4), roots=
             run.note_class("automaton", rt, len(M.vertices), len(labels), feats)
         queries(run, rng, F, M, list(labels), Lw, sample=sample, all_starts=all_starts)
         enumerations(run, rng, F, M, Le, starts="all" if len(M.vertices) <= 6 else 3)
-        operations(run, rng, F, M, list(labels), ks=ks, roots=roots)
+        operations(run, rng, F, M, list(labels), ks=ks, roots=roots,
+                   depth=0 if derived else 1)
         # after everything: the automaton is still the specified one
         MF, prob = fl.snapshot(F)
         watch = run.monitor("write-watch")
@@ -955,18 +982,24 @@ BLOCK = 16
 
 
 def dense_case(run, rng, code):
+    """code -> (table, route).  Every table meets every route; the results of
+    the operations are re-queried for one route per table (rotating)."""
     r = code % NR
     code //= NR
     for (n, labs), size in zip(DENSE, DENSE_SIZES):
         if code < size:
             d = fl.dense_decode(code, n, labs)
-            exercise(run, rng, d, 0, list(labs), fsa_build.ROUTES[r], Lw=4, Le=4)
+            full = (code % NR == r)
+            exercise(run, rng, d, 0, list(labs), fsa_build.ROUTES[r], Lw=4 if full else 3,
+                     Le=4 if full else 3, derived=full)
             return
         code -= size
 
 
 def wl_dense_sample(run, rng, idx):
     code = int(rng.integers(0, DENSE_CASES))
+    if idx % 2 == 0:        # every other case with re-queried results
+        code = (code // NR) * NR + (code // NR) % NR
     dense_case(run, rng, code)
     if idx < 2:
         run.sample({"dense_code": code, "case": run.current_case})
@@ -987,7 +1020,7 @@ def wl_small_tables(run, rng, idx):
     d = fl.dense_decode(code, n, labs)
     start = int(rng.integers(0, n))
     exercise(run, rng, d, start, list(labs), fsa_build.ROUTES[int(rng.integers(0, NR))],
-             Lw=3 if len(labs) == 3 else 4, Le=4)
+             Lw=3 if len(labs) == 3 else 4, Le=4, derived=(idx % 2 == 0))
 
 
 def wl_random(run, rng, idx):
@@ -995,7 +1028,8 @@ def wl_random(run, rng, idx):
     rt = fsa_build.ROUTES[idx % NR]
     n = len(labels)
     exercise(run, rng, d, start, labels, rt, Lw={1: 5, 2: 4, 3: 4, 4: 3}[n], Le=4,
-             ks=(1, 2, 3, 4) if n <= 3 else (1, 2, 3), roots="all")
+             ks=(1, 2, 3, 4) if n <= 3 else (1, 2, 3), roots="all",
+             derived=(idx % 3 != 2))
     if idx < 3:
         run.sample(run.current_case)
 
@@ -1005,6 +1039,9 @@ def wl_builtin(run, rng, idx):
     files = sorted(fsa.list_builtins())
     names = files + ["free:a", "free:ab", "free:abc"]
     name = names[idx % len(names)]
+    if not name.startswith("free:") and not os.path.exists(
+            os.path.join(core.REPO, "geometry_tools", "automata", "builtin", name)):
+        return
     if name.startswith("free:"):
         F = fsa.free_automaton(name[5:])
     else:
@@ -1021,11 +1058,18 @@ def run_loaded(run, rng, F, rt, name):
     d = model_dict(M)
     labels = sorted({l for (_v, l) in M.delta})
     big = len(M.vertices) > 40 or len(labels) > 4
-    huge = len(M.vertices) > 150 or len(labels) > 8
+    huge = len(M.vertices) > 100 or len(labels) > 8
+    quick = run.tier == "quick"
+    if huge:
+        ks = (1,) if quick else (1, 2)
+    elif big:
+        ks = (1, 2) if quick else (1, 2, 3)
+    else:
+        ks = (1, 2, 3, 4)
     exercise(run, rng, d, M.starts[0], labels, rt, F=F,
-             Lw=2 if len(labels) > 4 else 3, Le=3 if big else 4,
-             ks=(1, 2) if huge else (1, 2, 3) if big else (1, 2, 3, 4),
-             roots=1 if huge else 3, sample=150, all_starts=False)
+             Lw=2 if len(labels) > 4 else 3, Le=3 if big else 4, ks=ks,
+             roots=1 if huge else 3, sample=60 if (big and quick) else 150,
+             all_starts=False, derived=not (huge and quick))
     run.note_class("loaded", name)
 
 
@@ -1036,8 +1080,8 @@ COXETER = [(2, 3, 7), (3, 3, 4), (2, 4, 5), (3, 3, 3), (2, 3, 0), (0, 0, 0),
 def wl_coxeter(run, rng, idx):
     from geometry_tools import coxeter
     tri = COXETER[idx % len(COXETER)]
-    shortlex = bool((idx // len(COXETER)) % 2 == 0)
-    even = bool((idx // (2 * len(COXETER))) % 2 == 1)
+    shortlex = bool((idx // 2) % 2 == 0)
+    even = bool(idx % 3 == 2)
     run.current_case = {"triangle": list(tri), "shortlex": shortlex, "even_length": even}
     _ctx["route"] = "coxeter-build"
     try:
@@ -1060,12 +1104,12 @@ def wl_multichar(run, rng, idx):
 
 
 WORKLOADS = [
-    Workload("dense-sample", wl_dense_sample, quick=110, thorough=0),
+    Workload("dense-sample", wl_dense_sample, quick=80, thorough=0),
     Workload("dense-all", wl_dense_all, quick=0, thorough=(DENSE_CASES + BLOCK - 1) // BLOCK),
-    Workload("small-tables", wl_small_tables, quick=45, thorough=3000),
-    Workload("random", wl_random, quick=70, thorough=4000),
+    Workload("small-tables", wl_small_tables, quick=36, thorough=2000),
+    Workload("random", wl_random, quick=50, thorough=3000),
     Workload("multichar-labels", wl_multichar, quick=14, thorough=400),
     Workload("builtin", wl_builtin, quick=21, thorough=84),
-    Workload("coxeter", wl_coxeter, quick=10, thorough=40),
+    Workload("coxeter", wl_coxeter, quick=8, thorough=40),
 ]
 EXHAUSTIVE = {"quick": False, "thorough": False}
